@@ -502,8 +502,10 @@ def ref(call):
 ALPHA = "abc "
 UNICODE_SAMPLES = ["éáb", "a\U0001F600b\U0001F600", " ab ", "\ud800a\ud800", "ßAİ",
                    "a\tb\nc", "\x1fab\x85", "　　", "ab\U00010000ab", "аба"]
-GRID_STRINGS_QUICK = ["", "a", "ab", "abab", "aaa", "ab ab", "cabcdab", "a\U0001F600a", "éeé"]
-GRID_SUBS = ["", "a", "ab", "b", "aa", "\U0001F600", "é", "ba", "abab", "c"]
+GRID_STRINGS_QUICK = ["", "a", "ab", "abab", "aaa", "ab ab", "a\U0001F600a", "éeé"]
+GRID_STRINGS_MORE = ["cabcdab", "abcabc", " a b ", "aaaa", "abbaé"]
+GRID_SUBS_QUICK = ["", "a", "ab", "b", "aa", "\U0001F600", "é"]
+GRID_SUBS = GRID_SUBS_QUICK + ["ba", "abab", "c"]
 
 
 def rstr(rng, maxlen=7, alpha=ALPHA):
@@ -623,7 +625,7 @@ def random_call(rng):
         b = s if rng.random() < 0.2 else (s[:rng.randrange(len(s) + 1)] + rstr(rng, 2) if rng.random() < 0.6 else rstr(rng))
         return (fn, rng.choice(["<", "<=", ">", ">="]), s, b)
     if fn == "concat":
-        return (fn, tuple(rstr(rng, 3) for _ in range(rng.randrange(0, 4))), rng.randrange(2))
+        return (fn, tuple(rstr(rng, 3) for _ in range(rng.randrange(1, 4))), rng.randrange(2))
     if fn == "str":
         return (fn, rscalar(rng))
     if fn in ("upper", "lower"):
@@ -1042,12 +1044,12 @@ def correspondence(run):
     cs, cr = load_corpus()
     # ---- strings ----
     calls = list(cs)
-    calls += list(grid_calls(GRID_STRINGS_QUICK if run.quick else GRID_STRINGS_QUICK + ["abcabc", " a b ", "aaaa", "abbaé"],
-                             GRID_SUBS))
+    calls += list(grid_calls(GRID_STRINGS_QUICK if run.quick else GRID_STRINGS_QUICK + GRID_STRINGS_MORE,
+                             GRID_SUBS_QUICK if run.quick else GRID_SUBS))
     for flags in range(12):
         calls.append(("characters", tuple(i == flags for i in range(12))))
     calls.append(("characters", tuple(False for _ in range(12))))
-    calls += [random_call(rng) for _ in range(run.n(2500, 40000))]
+    calls += [random_call(rng) for _ in range(run.n(2500, 30000))]
     terms, meta = [], []
     for i, call in enumerate(calls):
         obs = run_call(call)
@@ -1070,7 +1072,7 @@ def correspondence(run):
             rcalls.append(dict(base, fn="search", keys=allkeys))
             rcalls.append(dict(base, fn="searchAll", keys=allkeys))
             rcalls.append(dict(base, fn="replaceBy", items=[("val", 2), ("lit", "-"), ("val", "x"), ("val", 1)], count=0, form=0))
-    rcalls += [random_regex_call(rng) for _ in range(run.n(1500, 25000))]
+    rcalls += [random_regex_call(rng) for _ in range(run.n(1200, 20000))]
     terms, meta = [], []
     for i, rc in enumerate(rcalls):
         ms = matches_of(rc)
